@@ -928,6 +928,7 @@ func runCapacity(cc *capacityCase) (fails []string, info string) {
 			n = 4
 		}
 	}
+	baseNG := runtime.NumGoroutine()
 	sched := cfg.New()
 	bg := context.Background()
 	var wg1 sync.WaitGroup
@@ -967,8 +968,16 @@ func runCapacity(cc *capacityCase) (fails []string, info string) {
 		return []string{fmt.Sprintf("capacity lost: after some of %v left, the remaining jobs were never run within 5s (N=%d)", cc.Kills, n)}, "phase1-timeout"
 	}
 	var quick int64
+	burstG := 0
 	for i := 0; i < cc.Extra; i++ {
 		sched.Enqueue(bg, scheduler.Job{Run: func(context.Context) error { atomic.AddInt64(&quick, 1); return nil }})
+		if i%64 == 63 {
+			// cheap (no stack dump: a slow sampler would let the loop catch up); the harness starts no
+			// goroutine during a capacity case, so growth over the baseline is the scheduler's
+			if g := runtime.NumGoroutine() - baseNG; g > burstG {
+				burstG = g
+			}
+		}
 	}
 	var arrived int32
 	var peak int32
@@ -1014,6 +1023,9 @@ func runCapacity(cc *capacityCase) (fails []string, info string) {
 	}
 	if int(atomic.LoadInt32(&peak)) > n {
 		fails = append(fails, fmt.Sprintf("%d bodies in flight with Concurrency=%d", peak, n))
+	}
+	if burstG > n+4 {
+		fails = append(fails, fmt.Sprintf("%d goroutines started by the scheduler were alive during a burst of %d Enqueue calls (Concurrency=%d): the number grows with the work submitted", burstG, cc.Extra, n))
 	}
 	return fails, fmt.Sprintf("N=%d kills=%d extra=%d peak=%d maxSchedGoroutines=%d", n, len(cc.Kills), cc.Extra, peak, maxG)
 }
@@ -1377,6 +1389,55 @@ func runExitingEmitter(n, jobs int, k int64, coe bool) (fails []string) {
 	return fails
 }
 
+// runNested: every job of an outer scheduler runs a scheduler of its own (a flow inside a task) and waits
+// for it.  Schedulers are independent of each other: whatever the number of outer jobs running at once,
+// every inner Wait and then the outer Wait return (C05).
+func runNested(outerN, outerJobs int) (fails []string) {
+	outer := scheduler.Config{Concurrency: outerN}.New()
+	bg := context.Background()
+	var innerDone int32
+	done := make(chan error, 1)
+	// the outer jobs meet at a barrier first, so that as many of them as the outer limit allows are in
+	// flight at the same time when the inner schedulers are created
+	want := int32(outerN)
+	if outerJobs < outerN {
+		want = int32(outerJobs)
+	}
+	var arrived int32
+	all := make(chan struct{})
+	var once sync.Once
+	go func() {
+		for i := 0; i < outerJobs; i++ {
+			outer.Enqueue(bg, scheduler.Job{Run: func(ctx context.Context) error {
+				if atomic.AddInt32(&arrived, 1) >= want {
+					once.Do(func() { close(all) })
+				}
+				select {
+				case <-all:
+				case <-time.After(2 * time.Second):
+				}
+				inner := scheduler.Config{Concurrency: 2}.New()
+				a := inner.Enqueue(ctx, scheduler.Job{Run: func(context.Context) error { return nil }})
+				inner.Enqueue(ctx, scheduler.Job{Dependencies: []*scheduler.ScheduledJob{a}, Run: func(context.Context) error { return nil }})
+				err := inner.Wait(ctx)
+				atomic.AddInt32(&innerDone, 1)
+				return err
+			}})
+		}
+		done <- outer.Wait(bg)
+	}()
+	select {
+	case err := <-done:
+		if err != nil {
+			fails = append(fails, fmt.Sprintf("nested schedulers: outer Wait returned %v", err))
+		}
+	case <-time.After(15 * time.Second):
+		atomic.AddInt32(&hangs, 1)
+		fails = append(fails, fmt.Sprintf("nested schedulers (%d outer jobs, outer Concurrency %d): the outer Wait did not return within 15s; %d inner schedulers finished", outerJobs, outerN, atomic.LoadInt32(&innerDone)))
+	}
+	return fails
+}
+
 // runDeadlineCtx: contexts that carry a deadline (context.WithTimeout) which expires while task functions
 // that ignore their context are still running; the functions return later.  Wait must return (C05) and,
 // once the functions have returned, no goroutine started by the scheduler may remain (C06, checked by the
@@ -1690,6 +1751,26 @@ func main() {
 				}
 				stats["exitemitter"]++
 			}
+			// schedulers inside the jobs of a scheduler, many at once
+			for i, c := range [][2]int{{64, 64}, {200, 400}} {
+				if atomic.LoadInt32(&hangs) >= 3 {
+					break
+				}
+				fails := runNested(c[0], c[1])
+				fmt.Fprintf(w, "cap %d nested outerN=%d outerJobs=%d capseed=%d capcount=%d\n", 600000+i, c[0], c[1], *seed, *capacity)
+				if len(fails) == 0 {
+					fmt.Fprintf(w, "O C05 ok\n")
+				} else {
+					fmt.Fprintf(w, "O C05 FAIL %s\n", strings.Join(fails, " ;; "))
+					stats["fail.C05"]++
+				}
+				if l, d := waitQuiescent(baseG); l > 0 && len(fails) == 0 {
+					fmt.Fprintf(w, "O C06 FAIL nested case %d: %d scheduler goroutine(s) never terminate: %s\n", 600000+i, l, strings.ReplaceAll(d, "\n", " | "))
+					stats["fail.C06"]++
+				}
+				baseG = countSchedGoroutines()
+				stats["nested"]++
+			}
 			// deadline contexts expiring while functions that ignore them are running
 			for i, c := range []struct {
 				n, jobs     int
@@ -1756,7 +1837,7 @@ func main() {
 		if *capacity > 0 && atomic.LoadInt32(&hangs) < 3 {
 			old := runtime.GOMAXPROCS(runtime.NumCPU() + 5)
 			for i, kills := range [][]string{nil, {"goexit", "goexit", "fail"}} {
-				cc := &capacityCase{Idx: 900000 + i, N: 0, Kills: kills, Extra: 10 * i}
+				cc := &capacityCase{Idx: 900000 + i, N: 0, Kills: kills, Extra: 10*i + 8000*(1-i)}
 				fails, info := runCapacity(cc)
 				fmt.Fprintf(w, "cap %d %s gomaxprocs=%d numcpu=%d kills=%s capseed=%d capcount=%d\n", cc.Idx, info, runtime.GOMAXPROCS(0), runtime.NumCPU(), strings.Join(cc.Kills, ","), *seed, *capacity)
 				if len(fails) == 0 {
